@@ -14,6 +14,7 @@ import Pcore.Proofs.FilesTermMain
 import Pcore.Proofs.FilesTypesetChild
 import Pcore.Proofs.FilesFuelMono
 import Pcore.Proofs.FilesTypesetDep
+import Pcore.Proofs.FilesAncestorMod
 /-!
 # C15 — File-based loading maps names to definition files faithfully
 
@@ -88,8 +89,11 @@ Full statement / proved / missing
 * `C15_typeset_dependency`, `C15_member_cached_dependency` (proved) — a qualified type set `Mod::…` through the DEPENDENCY
   loader: three placeholders per member (global, module, dependency loader) and the definitions in the dependency loader
   (`typesetState3`).
+* `C15_ancestor_loaded_module`, `C15_ancestor_error_module` (proved) — `Mod::A::B` requested where only `Mod::A` has a file,
+  through the module's loader below the global loader: `Mod::A` is loaded on the way, `Mod::A::B` stays absent; a defective
+  `Mod::A` file is the error of the lookup of `Mod::A::B`.
 * missing: the module's own (unqualified) name through the dependency loader (the loop over all members), several existing
-  ancestors at once; it is false as
+  ancestors at once, ancestors through the dependency loader; it is false as
   stated for layouts that define one name twice (`C15_duplicate_redefine`, known finding C15-duplicate-redefine) and the
   error of a misnamed file carries no line (`C15_misnamed_no_line`, known finding C15-misnamed-no-line).  The OS (Walk
   order, permissions, symlinks), the parser and type resolution are parameters (DESIGN.md §5).
@@ -1175,6 +1179,65 @@ example :
     (runLoads 30 (setCfg2 .d) {} [["OTHER", "sub", "SET"], ["Other", "Sub", "Set", "Twig"], ["Other", "Sub", "Set", "Nope"]]).2.reads =
       [["modules", "other", "types", "sub", "set.pp"]] := by
   refine ⟨quietAnc_of_check (by decide), memHyp_of_check (by decide), memHyp_of_check (by decide), by decide, by decide⟩
+
+/-! ## `Mod::A::B` requested where only `Mod::A` has a file (module loader, default topology) -/
+
+/-- `Mod::A::B` has no file, `Mod::A` has a plain one below the module: the global loader misses completely (one
+    placeholder), the module loader's parent search loads `Mod::A` — its file is the only read, it is defined — and
+    `Mod::A::B` is `notfound` with a placeholder in each loader.  (Vice versa — `Mod::A` requested, only `Mod::A::B` has
+    a file — nothing below the name is consulted: `C15_absent`, `C15_find_miss`.) -/
+theorem C15_ancestor_loaded_module (cfg : Cfg) (mod : String) (hv : cfg.via = .m mod) (hflat : cfg.flat = false)
+    (name : Name) (hqual : qualified name = true) (s : St) (m : Nat) (hfuel : 3 * name.length ≤ m + 8)
+    (hsys : sysLoad name = none)
+    (hqg : QuietAnc cfg .g s name) (hig : idx cfg .g (keyOf name) = [])
+    (hroute : Routed (.m mod) name) (hroutep : Routed (.m mod) name.dropLast)
+    (hvalid : (partsOf name).isSome)
+    (hfresh : s.get (.m mod) (keyOf name) = none) (hi : idx cfg (.m mod) (keyOf name) = [])
+    (hqa : QuietAnc cfg (.m mod) s name.dropLast)
+    (p : Path) (ps : List Path) (hip : idx cfg (.m mod) (keyOf name.dropLast) = p :: ps)
+    (b : Body) (d : Def) (hb : bodyAt cfg.tree p = some b) (hd : definedBy b name.dropLast = some d)
+    (hk : d.kind ≠ .typeset) :
+    loadS (m+13) cfg s name =
+      (.notfound, (((((s.put .g (keyOf name) none).put (.m mod) (keyOf name.dropLast) none).addRead p).put (.m mod)
+        (keyOf name.dropLast) (some d)).put (.m mod) (keyOf name) none)) :=
+  ancestor_module_good cfg mod hv hflat name hqual s m hfuel hsys hqg hig hroute hroutep hvalid hfresh hi hqa p ps hip b d
+    hb hd hk
+
+/-- a defective `Mod::A` file is the error of the lookup of `Mod::A::B`, naming that file (and the line of a syntax
+    error); nothing is bound -/
+theorem C15_ancestor_error_module (cfg : Cfg) (mod : String) (hv : cfg.via = .m mod) (hflat : cfg.flat = false)
+    (name : Name) (hqual : qualified name = true) (s : St) (m : Nat) (hfuel : 3 * name.length ≤ m + 8)
+    (hsys : sysLoad name = none)
+    (hqg : QuietAnc cfg .g s name) (hig : idx cfg .g (keyOf name) = [])
+    (hroute : Routed (.m mod) name) (hroutep : Routed (.m mod) name.dropLast)
+    (hfresh : s.get (.m mod) (keyOf name) = none) (hi : idx cfg (.m mod) (keyOf name) = [])
+    (hpfresh : s.get (.m mod) (keyOf name.dropLast) = none)
+    (p : Path) (ps : List Path) (hip : idx cfg (.m mod) (keyOf name.dropLast) = p :: ps)
+    (b : Body) (hb : bodyAt cfg.tree p = some b) (hd : Defective b name.dropLast) :
+    loadS (m+13) cfg s name =
+      (.failed (defectErr p b), ((s.put .g (keyOf name) none).put (.m mod) (keyOf name.dropLast) none).addRead p) :=
+  ancestor_module_defective cfg mod hv hflat name hqual s m hfuel hsys hqg hig hroute hroutep hfresh hi hpfresh p ps hip b
+    hb hd
+
+def ancCfg : Cfg :=
+  { mods := ["mymod"], via := .m "mymod",
+    tree := [(["modules", "mymod", "types", "a.pp"], .typ .object ["Mymod", "A"] []),
+             (["modules", "mymod", "types", "bad.pp"], .malformed 2),
+             (["modules", "mymod", "types", "c", "d.pp"], .typ .alias ["Mymod", "C", "D"] [])] }
+
+/-- non-vacuity: `Mymod::A::B` loads `Mymod::A` on the way and stays absent; `Mymod::Bad::X` reports the parse error of
+    `bad.pp` with its line; vice versa `Mymod::C` (only `Mymod::C::D` has a file) is absent and reads nothing -/
+example : QuietAnc ancCfg .g {} ["Mymod", "A", "B"] ∧ QuietAnc ancCfg (.m "mymod") {} ["Mymod", "A"] ∧
+    Routed (.m "mymod") ["Mymod", "A", "B"] ∧ Routed (.m "mymod") ["Mymod", "A"] ∧
+    (runLoads 20 ancCfg {} [["Mymod", "A", "B"], ["Mymod", "A"], ["Mymod", "A", "B"]]).1 =
+      [.notfound, .found ⟨.object, ["Mymod", "A"]⟩, .notfound] ∧
+    (runLoads 20 ancCfg {} [["Mymod", "A", "B"], ["Mymod", "A"], ["Mymod", "A", "B"]]).2.reads =
+      [["modules", "mymod", "types", "a.pp"]] ∧
+    (loadS 20 ancCfg {} ["Mymod", "Bad", "X"]).1 =
+      .failed (.reported "PARSE_ERROR" (some ["modules", "mymod", "types", "bad.pp"]) 2) ∧
+    (loadS 20 ancCfg {} ["Mymod", "C"]).1 = .notfound ∧ (loadS 20 ancCfg {} ["Mymod", "C"]).2.reads = [] := by
+  refine ⟨quietAnc_of_check (by decide), quietAnc_of_check (by decide), Or.inl ⟨rfl, Or.inr ⟨_, rfl, rfl⟩⟩,
+    Or.inl ⟨rfl, Or.inr ⟨_, rfl, rfl⟩⟩, by decide, by decide, by decide, by decide, by decide⟩
 
 /-! ## negation witnesses for the known findings -/
 
